@@ -14,7 +14,7 @@ def harnesses(tier):
     ]
 
 
-ASSUMPTIONS = ['ContentIdToContent over strings and the reader/writer routing are M/Z obligations (when present)', 'XML paths as executed are outside']
+ASSUMPTIONS = ['ContentIdToContent over arbitrary strings is outside', 'reader/writer routing is decided for the binary format only (M22: MIR symbolic execution over a custom one-class database with an IgnoreGuiInset-style migration); the XML read/write paths run through xml-rs and are outside', 'the 12 migrating class/property pairs of the bundled database share this code path; they are not each loaded symbolically']
 TRUSTED = ['rustc (Kani toolchain)', 'Kani 0.68 / CBMC 6.11', 'dbdump (real serde decoding of database.msgpack)']
 RULE = 'one Kani harness per migration operation; the legacy value domain is generated from the real database at run time'
 
@@ -58,4 +58,25 @@ def run(tier, seed, t0, only=None):
         ob.status, ob.queries, ob.vacuity = C.PASS, len(info['font_excluded']), True
         ob.samples = [{'still_failing': still, 'listed': info['font_excluded']}]
         obs.append(ob)
+    ms = routing_groups(tier)
+    if only:
+        ms = [g for g in ms if any(g['id'].startswith(o) for o in only)]
+    if ms:
+        from ..mirsym import binrun, bincheck, sercheck
+        binrun.refresh_mir()
+        for g in ms:
+            obs += binrun.run([g], ('C15', 'C08'), module=sercheck if g['id'] == 'M22.write' else bincheck)
     return C.finish('C15', tier, seed, obs, t0, ASSUMPTIONS, TRUSTED, RULE)
+
+
+def routing_groups(tier):
+    """binary read / write routing of a migrating legacy property over the custom database of vlib/props/colcases.py"""
+    from . import colcases
+    w = [c for c in colcases.cases(tier) if 'legacy' in c['tag'] or 'both' in c['tag']]
+    return [
+        dict(id='M22.read', desc='binary read path: a legacy Bool column (IgnoreGuiInset) of a known class decodes as the new property only; an explicit ScreenInsets column wins in either chunk order',
+             bounds='1-2 instances, both booleans / all u32 enum values symbolic, both chunk orders', budget=300,
+             cases=[dict(what='migr', n=n, explicit=e, classes=colcases.DB) for n in (1, 2) for e in (False, True)]),
+        dict(id='M22.write', desc='binary write path: instances carrying the legacy name, the new name, an alias of it, both or none, in every sibling order: written and read back as the new property with the migrated / explicit value',
+             bounds='%d multisets/orders of <= %d instances' % (len(w), 2 if tier == 'quick' else 3), cases=w, budget=600),
+    ]
